@@ -824,3 +824,129 @@ def build_elf(dst, harnesses):
     write(os.path.join(dst, "build.rs"), "fn main() {\n    println!(\"cargo:rustc-cfg=ax_verif\");\n    println!(\"cargo:rustc-check-cfg=cfg(ax_verif)\");\n}\n")
     shutil.copyfile(os.path.join(X.REPO, "Cargo.lock"), os.path.join(dst, "Cargo.lock"))
     return extracted
+
+
+# ------------------------------------------------------------------------------------------------ dispatch crate (mnemonic routing)
+DISP_HARNESSES = [("disp_route", "check_route()", 4), ("disp_convert", "check_convert()", 4)]
+
+
+def disp_texts():
+    out = {}
+    mac = X.whole_file("src/helpers/macros.rs")
+    out["helpers/macros.rs"] = ("src/helpers/macros.rs", X.select_items(mac, lambda h: re.match(r"\s*(macro_rules!|pub\(crate\) use|pub\(crate\) const)", h.strip()) is not None))
+    out["auto/generated.rs"] = ("src/auto/generated.rs", X.whole_file("src/auto/generated.rs"))
+    return out
+
+
+def disp_model():
+    """model Axecutor: one recording stub per variant of the real SupportedMnemonic enum (the contract of `mnemonic_<m>` seen from
+    the dispatcher: it is the handler of mnemonic <M>)"""
+    gen = X.whole_file("src/auto/generated.rs")
+    vs = X.enum_variants(gen, "SupportedMnemonic")
+    body = ["//! generated by kanicrate.disp_model from the variants of the real SupportedMnemonic enum\n",
+            "use crate::helpers::errors::AxError;\nuse iced_x86::{Instruction, Mnemonic};\n",
+            "pub struct Axecutor { pub called: u32, pub calls: u32 }\nimpl Axecutor {\n"]
+    for v in vs:
+        body.append("    pub fn mnemonic_%s(&mut self, _i: Instruction) -> Result<(), AxError> { self.called = Mnemonic::%s as u32; self.calls += 1; Ok(()) }\n" % (v.lower(), v))
+    body.append("}\n")
+    return "".join(body), vs
+
+
+DISP_HARNESS = """//! dispatch unit: the real `switch_instruction_mnemonic` and `TryFrom<Mnemonic> for SupportedMnemonic` (generated.rs) for every
+//! iced Code: a supported mnemonic reaches exactly its own handler, once; everything else is an error and reaches none.
+use crate::auto::generated::SupportedMnemonic;
+use crate::axecutor::Axecutor;
+use iced_x86::{Code, Instruction, Mnemonic};
+use std::convert::TryFrom;
+
+fn any_instruction() -> Instruction {
+    // every value iced accepts as a Code (TryFrom<usize> checks the range of the enum)
+    let c: usize = kani::any();
+    let code = match Code::try_from(c) {
+        Ok(code) => code,
+        Err(_) => {
+            kani::assume(false);
+            Code::INVALID
+        }
+    };
+    let mut i = Instruction::default();
+    i.set_code(code);
+    i
+}
+fn supported(m: Mnemonic) -> bool {
+    let n = m as u32;
+    false %s
+}
+pub fn check_route() {
+    let i = any_instruction();
+    let mut ax = Axecutor { called: 0, calls: 0 };
+    let r = ax.switch_instruction_mnemonic(i);
+    let m = i.mnemonic();
+    kani::cover!(r.is_ok(), "COVER|routed");
+    kani::cover!(r.is_err(), "COVER|rejected");
+    let sel: u8 = kani::any();
+    match sel {
+        0 => {
+            if supported(m) {
+                assert!(r.is_ok() && ax.calls == 1 && ax.called == m as u32, "OBL|C01|mnemonic-routes-to-its-own-handler");
+            }
+        }
+        _ => {
+            if !supported(m) {
+                assert!(r.is_err() && ax.calls == 0, "OBL|C19|unsupported-mnemonic-is-an-error");
+            }
+        }
+    }
+}
+pub fn check_convert() {
+    let i = any_instruction();
+    let m = i.mnemonic();
+    let r = SupportedMnemonic::try_from(m);
+    kani::cover!(r.is_ok(), "COVER|converted");
+    match r {
+        Ok(sm) => assert!(supported(m) && sm as u32 == m as u32, "OBL|C12|supported-mnemonic-conversion-keeps-the-mnemonic"),
+        Err(_) => assert!(!supported(m), "OBL|C12|supported-mnemonic-conversion-is-total-on-supported-mnemonics"),
+    }
+}
+"""
+
+
+def plan_disp():
+    return [dict(name=n, decl="#[kani::proof]\n#[kani::unwind(%d)]\nfn %s() {\n    crate::harness::disp::%s\n}\n" % (u, n, c), fns=["switch_instruction_mnemonic", "TryFrom<Mnemonic> for SupportedMnemonic"])
+            for (n, c, u) in DISP_HARNESSES]
+
+
+def disp_hash():
+    parts = [t for (_r, t) in disp_texts().values()]
+    for rel in ["model/errors.rs", "model/debug.rs", "model/verif_hooks.rs"]:
+        parts.append(open(os.path.join(KANI, rel)).read())
+    parts += [DISP_HARNESS, CRATE_LAYOUT_VERSION]
+    return X.sha(*parts)
+
+
+def build_disp(dst, harnesses):
+    if os.path.exists(dst):
+        shutil.rmtree(dst)
+    src = os.path.join(dst, "src")
+    extracted = {}
+    for rel_dst, (rel_repo, t) in disp_texts().items():
+        write(os.path.join(src, rel_dst), t)
+        extracted[rel_dst] = dict(repo=rel_repo, sha256=X.sha(t), lines=t.count("\n") + 1)
+    for a, b in [("model/errors.rs", "helpers/errors.rs"), ("model/debug.rs", "helpers/debug.rs"), ("model/verif_hooks.rs", "verif_hooks.rs")]:
+        copy(os.path.join(KANI, a), os.path.join(src, b))
+    model, vs = disp_model()
+    write(os.path.join(src, "axecutor.rs"), model)
+    write(os.path.join(src, "harness/disp.rs"), DISP_HARNESS % "".join(" || n == Mnemonic::%s as u32" % v for v in vs))
+    write(os.path.join(src, "harness/gen_disp.rs"), "".join(h["decl"] for h in harnesses))
+    lib = ["#![allow(warnings)]\n", FORMAT_SHADOW,
+           "pub mod verif_hooks;\n",
+           "pub mod helpers { pub mod debug; pub mod errors; pub mod macros; }\n",
+           "pub mod auto { pub mod generated; }\n",
+           "pub mod axecutor;\n",
+           "pub mod harness { pub mod disp; #[cfg(kani)] pub mod gen_disp; }\n"]
+    write(os.path.join(src, "lib.rs"), "".join(lib))
+    write(os.path.join(dst, "Cargo.toml"), CARGO_TOML.format(name="axdisp"))
+    write(os.path.join(dst, ".cargo/config.toml"), "[net]\noffline = true\n")
+    write(os.path.join(dst, "build.rs"), "fn main() {\n    println!(\"cargo:rustc-cfg=ax_verif\");\n    println!(\"cargo:rustc-check-cfg=cfg(ax_verif)\");\n}\n")
+    shutil.copyfile(os.path.join(X.REPO, "Cargo.lock"), os.path.join(dst, "Cargo.lock"))
+    return extracted
